@@ -7,7 +7,7 @@ from vf.oracles import reader
 from vf.props.common import SCH
 from vf.symx import SInt, smax
 
-ALL_OPS = ["append", "append2", "delete", "replace", "expire", "delsnap", "gc", "failed_commit", "set_retention", "open_txn", "contended_commit"]
+ALL_OPS = ["append", "append2", "delete", "replace", "expire", "delsnap", "gc", "failed_commit", "set_retention", "open_txn", "contended_commit", "reappend", "reused_txn"]
 
 
 class Snap:
@@ -95,7 +95,7 @@ class History:
         sp, t, e = self.sp, self.t, self.e
         kind = self.ops[sp.choose(len(self.ops), name=f"op{k}")]
         w = e.world
-        if kind in ("delete", "replace") and not self.cur_rows():
+        if kind in ("delete", "replace", "reappend") and not self.cur_rows():
             kind = "append"
         if kind in ("expire", "delsnap") and not self.retained:
             kind = "append"
@@ -113,6 +113,17 @@ class History:
                     for r in rows:
                         tx.append_data([{"a": r}])
                     tx.commit()
+            s = self.observe_commit(kind)
+            sp.require(set(s.rows) == exp, f"{kind}: new snapshot rows {s.rows} != expected {sorted(exp)} ({self.trail})", {"sig": f"hist:{kind}:rows"})
+            self.apply_retention_model()
+        elif kind == "reappend":
+            # a data file that is already part of the table is registered AGAIN (a re-submitted batch): same path listed by two manifests
+            dfs = sorted(t._get_all_data_files(), key=lambda d: d.file_path)
+            df = dfs[sp.choose(len(dfs), name=f"again{k}")]
+            exp = self.cur_rows()
+            with t.new_transaction() as tx:
+                tx.append_files([df])
+                tx.commit()
             s = self.observe_commit(kind)
             sp.require(set(s.rows) == exp, f"{kind}: new snapshot rows {s.rows} != expected {sorted(exp)} ({self.trail})", {"sig": f"hist:{kind}:rows"})
             self.apply_retention_model()
@@ -273,6 +284,57 @@ class History:
                 return kind
             sp.require(row in snap.rows and rrow in snap.rows, f"contended_commit: rows {snap.rows} lack the two committed rows", {"sig": "hist:contended:rows"})
             self.apply_retention_model()
+        elif kind == "reused_txn":
+            # ONE Transaction object used twice: its first commit is interrupted right AFTER the pointer write took effect (the snapshot is
+            # committed, the caller sees KeyboardInterrupt), its second commit fails cleanly AT the pointer write.  The second failure's
+            # clean-up must not touch anything the first commit made reachable.
+            import errno as _errno
+            to = e.table()
+            st_ = to.storage
+            mode = {"m": "after"}
+            real = {n: getattr(st_, n) for n in ("write_file", "write_file_cas") if hasattr(st_, n)}
+
+            def wrap(name):
+                def f(path, *a, **kw):
+                    if str(path).endswith("version-hint.text") and mode["m"] == "after":
+                        mode["m"] = "off"
+                        real[name](path, *a, **kw)
+                        raise KeyboardInterrupt()
+                    if str(path).endswith("version-hint.text") and mode["m"] == "before":
+                        mode["m"] = "off"
+                        raise OSError(_errno.ENOSPC, "injected: no space left on device")
+                    return real[name](path, *a, **kw)
+                return f
+            for n in real:
+                setattr(st_, n, wrap(n))
+            tx = to.new_transaction()
+            r1, r2 = self.next_row, self.next_row + 1
+            self.next_row += 2
+            exp = self.cur_rows() | {r1}
+            try:
+                tx.begin()
+                tx.append_data([{"a": r1}])
+                tx.commit()
+            except KeyboardInterrupt:
+                pass
+            s1 = self.observe_commit(kind)
+            sp.require(set(s1.rows) == exp, f"{kind}: rows {s1.rows} != expected {sorted(exp)} ({self.trail})", {"sig": f"hist:{kind}:rows"})
+            self.apply_retention_model()
+            mode["m"] = "before"
+            failed = False
+            try:
+                tx.begin()
+                tx.append_data([{"a": r2}])
+                tx.commit()
+            except Exception:  # noqa
+                failed = True
+                try:
+                    tx.rollback()
+                except Exception:  # noqa
+                    pass
+            for n in real:
+                setattr(st_, n, real[n])
+            sp.require(failed, f"{kind}: the injected pointer-write failure did not fail the second commit", {"sig": f"hist:{kind}:not-failed"})
         elif kind == "open_txn":
             to = e.table()
             tx = to.new_transaction()
